@@ -24,7 +24,8 @@ ASSUMPTIONS = [
     "an explicit deny and the implicit deny at the end are the same decision",
 ]
 REQUIRED = ["removed_0", "removed_1", "removed_2plus", "duplicate_removed", "grouped_removed",
-            "union_only_cover_kept", "standard_removed", "switched_removed"]
+            "union_only_cover_kept", "standard_removed", "switched_removed",
+            "item_switched_removed"]
 PREFIX = "= "
 _KEEP = __import__("collections").deque(maxlen=256)  # unmodified, already audited ACLs (per process)
 
@@ -70,11 +71,14 @@ def items(seed):
 SHADOW_ONLY = [0, 1, 2, 3, 4, 9, 11, 16, 17]
 HEAVY = [12, 13]
 STANDARD = [0, 1, 2, 3, 4, 5, 22, 23, 19]  # items a standard ACL can hold
-SWITCHED = [0, 1, 3, 4, 9, 10, 11, 16, 17, 18, 22]
+SWITCHED = [0, 1, 3, 9, 11, 16, 17, 22]
 STD_VARIANTS = [dict(grouped=False, numbered=n, skip=s, acl_type="standard")
                 for n in (False, True) for s in (None, ["nc_wildcard"])]
 SW_VARIANTS = [dict(grouped=False, numbered=False, skip=None, kwargs=kw)
                for kw in (dict(protocol_nr=True), dict(port_nr=True), dict(protocol_nr=True, port_nr=True))]
+# single entries switched AFTER construction (their spelling then differs from the ACL's setting)
+SW_VARIANTS += [dict(grouped=g, numbered=False, skip=None, item_switch=sw)
+                for g in (False, True) for sw in ("port_nr", "protocol_nr")]
 CORE = [0, 1, 2, 3, 4, 5, 7, 9, 11, 19, 20, 21]  # grouped/numbered variants at full length  # the items that can shadow each other (longer lists)
 
 
@@ -116,7 +120,8 @@ def units(tier, seed):
         for b in [None] + (STANDARD if tier == "thorough" else []):
             out.append(dict(kind="standard", first=a, second=b))
     for a in SWITCHED:
-        out.append(dict(kind="switched", first=a))
+        for vi in range(len(SW_VARIANTS)):
+            out.append(dict(kind="switched", first=a, variant=vi))
     if tier == "thorough":
         for a in CORE:
             for b in CORE:
@@ -171,8 +176,7 @@ def run_unit(unit, ctx):
         # the numeric switches change text only: lists of <= 3 items with protocol_nr / port_nr on
         for ln in (1, 2, 3):
             for rest in product(SWITCHED, repeat=ln - 1):
-                for var in SW_VARIANTS:
-                    check_acl("ios", (unit["first"],) + rest, var, ctx)
+                check_acl("ios", (unit["first"],) + rest, SW_VARIANTS[unit["variant"]], ctx)
         return
     first = tuple(unit["first"])
     if unit["kind"] == "core4":
@@ -199,7 +203,8 @@ def run_unit(unit, ctx):
         ln = 4 if ctx.tier == "quick" else 5
         for rest in product(SHADOW_ONLY, repeat=ln - 2):
             check_acl("ios", first + rest, VARIANTS[0], ctx)
-            check_acl("ios", first + rest, VARIANTS[2], ctx)
+            if ctx.tier == "thorough" or sum(first + rest) % 4 == 0:
+                check_acl("ios", first + rest, VARIANTS[2], ctx)  # numbered (quick: every 4th list)
     ctx.sample("acl", dict(idx=list(first + rest), lines=[its[i].text("ios") for i in first + rest]))
 
 
@@ -209,6 +214,13 @@ def _norm(text):
 
 def replay(case, ctx):
     check_acl(case["platform"], tuple(case["idx"]), case["variant"], ctx)
+
+
+def PR_flat_objects(acl):
+    out = []
+    for o in acl.items:
+        out.extend(o.items if hasattr(o, "items") and type(o).__name__ == "AceGroup" else [o])
+    return out
 
 
 def check_acl(platform, idx, var, ctx):
@@ -228,6 +240,15 @@ def check_acl(platform, idx, var, ctx):
                            numbered=var["numbered"], acl_type=acl_type, **var.get("kwargs", {}))
         if acl.type != acl_type:
             raise AssertionError(f"harness: ACL type {acl.type}")
+        if var.get("item_switch"):
+            from cisco_acl import Ace as _Ace
+
+            k = 0
+            for o in PR_flat_objects(acl):
+                if isinstance(o, _Ace):
+                    if k % 2 == 0:
+                        setattr(o, var["item_switch"], True)
+                    k += 1
     except Exception as ex:  # noqa
         ctx.viol("harness_or_build:exception", case, repr(ex), "ACL built")
         return
@@ -243,7 +264,17 @@ def check_acl(platform, idx, var, ctx):
             _KEEP.append(audit)
         except Exception:  # noqa
             pass
-    before = PR.flat_lines(acl)
+    canon = (lambda lines: lines)
+    if var.get("item_switch"):
+        # an entry switched on its own spells numbers where the ACL spells names, and a
+        # re-initialisation re-applies the ACL-wide setting: item lists are compared modulo
+        # spelling (every line re-rendered with the default switches)
+        from cisco_acl import Ace as _A, Remark as _R
+
+        def canon(lines):
+            return [(_R if PR.strip_seq(ln).startswith("remark") else _A)(ln, platform=platform).line
+                    for ln in lines]
+    before = canon(PR.flat_lines(acl))
     kinds_real = [PR.strip_seq(ln).split()[0] == "remark" for ln in before]
     remarks_real = [PR.strip_seq(ln) for ln in before if PR.strip_seq(ln).startswith("remark")]
     if kinds_real != [not it.is_ace for it in lst] or \
@@ -257,16 +288,16 @@ def check_acl(platform, idx, var, ctx):
         ctx.viol("harness:built_acl_differs_from_items", case, before,
                  [it.text(platform) for it in lst])
         return
-    blocks_before = PR.blocks(acl)
+    blocks_before = [(n_, canon(ls_)) for n_, ls_ in PR.blocks(acl)]
     text_before = acl.line
     try:
         r0 = acl.shading(skip)
         r1 = acl.delete_shadow(skip)
-        after = PR.flat_lines(acl)
+        after = canon(PR.flat_lines(acl))
         text_after = acl.line
-        blocks_after = PR.blocks(acl)
+        blocks_after = [(n_, canon(ls_)) for n_, ls_ in PR.blocks(acl)]
         r2 = acl.delete_shadow(skip)
-        after2 = PR.flat_lines(acl)
+        after2 = canon(PR.flat_lines(acl))
     except Exception as ex:  # noqa
         ctx.viol("Acl.delete_shadow:exception", case, repr(ex), "report")
         return
@@ -329,6 +360,8 @@ def check_acl(platform, idx, var, ctx):
             ctx.out("standard_removed")
         if var.get("kwargs"):
             ctx.out("switched_removed")
+        if var.get("item_switch"):
+            ctx.out("item_switched_removed")
         if any(before.count(before[j]) > 1 for j in deleted):
             ctx.out("duplicate_removed")
         if var["grouped"]:
